@@ -77,7 +77,8 @@ def int_cells(rng, tier):
     return cells
 
 
-CONTEXTS = ["decl", "decl", "decl", "assign", "arg_scalar", "arg_array", "arg_struct", "array_decl", "struct_decl", "ret"]
+CONTEXTS = ["decl", "decl", "decl", "assign", "arg_scalar", "arg_array", "arg_struct", "array_decl", "struct_decl", "ret",
+            "condition", "condition_left", "index_target"]
 
 
 def int_program(rng, cells):
@@ -132,6 +133,22 @@ def int_program(rng, cells):
         elif ctx == "struct_decl":
             need("box", t)
             stmts = ["\tvar b%d = Box_%s { v: %s, pad: 0 };" % (i, t, lit), "\tvar %s%s = b%d.v;" % (var, ann, i)]
+        elif ctx in ("condition", "condition_left"):
+            if ctx == "condition_left" and mode == "decl":
+                ctx = "condition"       # an unsuffixed literal on the left of a comparison has no type to be inferred from (E582)
+            # the literal stands in the condition of an `if` (on either side); its value is observed through a variable of its type
+            cmp_ = "%s == k%d" % (lit, i) if ctx == "condition_left" else "k%d == %s" % (i, lit)
+            stmts = ["\tvar k%d: %s = 0;" % (i, t), "\tvar %s: %s = 0;" % (var, t), "\tif %s" % cmp_, "\t{", "\t\t%s = 1;" % var, "\t}",
+                     "\t%s = %s;" % (var, lit)]
+            at = 2
+        elif ctx == "index_target":
+            # ... and in the index of the target of an assignment (type usize whatever the element type; only for usize cells)
+            if t != "usize":
+                stmts = ["\tvar %s%s = %s;" % (var, ann, lit)]
+                ctx = "decl"
+            else:
+                stmts = ["\tvar g%d: [4]u8 = [0, 0, 0, 0];" % i, "\tg%d[%s %% 4] = 7;" % (i, lit), "\tvar %s: usize = %s;" % (var, lit)]
+                at = 1
         else:
             rets.append((i, t, lit))
             stmts = ["\tvar %s%s = ret_%d();" % (var, ann if ann else ": " + t, i)]
